@@ -254,6 +254,57 @@ def key_addressing_pass(res):
     res.seen(("key-addressing", len(KEYS)))
 
 
+def augmented_assignment_pass(res, pts):
+    """Queries are values: composing with `q &= r` / `q |= r` (old style dynamic composition) gives q the new meaning
+    and leaves every other name of the old object - and everything built from it - with the old meaning."""
+    rpts = [p.to_real() for p in pts]
+    atoms_ = list(CORE_ATOMS)[:5]
+    k = 0
+    for i, a in enumerate(atoms_):
+        for j, b in enumerate(atoms_):
+            for c in atoms_[:3]:
+                for start_op in ("or", "and", None):
+                    for aug in ("and", "or"):
+                        base_ast = a if start_op is None else (start_op, a, b)
+                        base = qast.to_real(base_ast)
+                        neg = ~base                      # built from the old object
+                        outer = base | qast.to_real(c)   # built from the old object
+                        alias = base
+                        q = base
+                        rc = qast.to_real(c)
+                        if aug == "and":
+                            q &= rc
+                        else:
+                            q |= rc
+                        expect = {
+                            "q": (aug, base_ast, c), "alias of the old object": base_ast,
+                            "~old built before": ("not", base_ast), "old | c built before": ("or", base_ast, c),
+                        }
+                        got = {"q": q, "alias of the old object": alias, "~old built before": neg, "old | c built before": outer}
+                        k += 1
+                        for name, ast in expect.items():
+                            for mp, rp in zip(pts, rpts):
+                                if mp.t is None:
+                                    continue
+                                res.evaluations += 1
+                                want = qast.holds(ast, mp)
+                                try:
+                                    val = bool(got[name](rp))
+                                except Exception as e:  # noqa: BLE001
+                                    val = f"raised {type(e).__name__}"
+                                if val != want:
+                                    res.violate(Violation(
+                                        "C09", "augmented-assignment-changed-another-query",
+                                        {"old": qast.show(base_ast), "statement": f"q {'&' if aug == 'and' else '|'}= {qast.show(c)}", "object": name,
+                                         "point": mp.to_json(), "expected": want, "observed": val},
+                                        replay={"base": base_ast, "aug": aug, "c": c}, features={"object": name}))
+                                    break
+                            else:
+                                continue
+                            break
+    res.count("augmented_assignments", k)
+
+
 def _is_v(x):
     return x == "v"
 
@@ -338,6 +389,8 @@ def run(res, tier, seed, shard, nshards):
 
     if shard == (1 % nshards):
         key_addressing_pass(res)
+    if shard == (2 % nshards):
+        augmented_assignment_pass(res, pts)
 
     for b in contracts.drain(res):
         res.violate(Violation("C09", "compound-is-not-boolean-operator", {"what": b}, replay={"what": list(b)}))
@@ -353,6 +406,7 @@ def run(res, tier, seed, shard, nshards):
 def finalize(res, tier):
     res.require("key_addressing.evaluations")
     res.require("key_addressing.attribute_spellings")
+    res.require("augmented_assignments")
 
 
 def replay(res, rep):
